@@ -20,7 +20,7 @@ CLAIMED = {
 CLAIMED["C10"] = dict(
     text="The grammar machine BBGrammar (built from blackbird.g4) decides for every token string whether it is a sentence and which token is "
          "the first that makes it ungrammatical (FirstBad). TLC enumerates every viable prefix of the grammar's subset automaton up to a length "
-         "bound and the harness extends each by every token type; plus single-token mutants of whole scripts and token soups judged by TLC in "
+         "bound, from the start symbol and from 17 rule contexts, and the harness extends each by every token type; plus single-token mutants of whole scripts and token soups judged by TLC in "
          "batch. Every case is run through the real loads(): sentence <=> the tree walker is entered; otherwise BlackbirdSyntaxError exactly, "
          "with a 1-based line:column that is the start of a token not earlier than FirstBad.",
     note="Trusted: TLC; the text->token step is the real lexer (its equivalence with the grammar is C14's subject; texts that do not lex back "
@@ -43,7 +43,9 @@ CLAIMED["C02"] = dict(
          "the machine walks them (every script over a 20-item menu up to N items, random walks beyond) and checks in every final state that the "
          "operational outcome equals the declarative fold BBDenote (one operation per executed statement in order, modes, arguments, metadata), that "
          "modes is the union, and (action properties) that operations are append-only and deferred loop bodies are not executed while walking. Every "
-         "finished load is rendered, loaded by the real code and compared field by field with the specification's program.",
+         "finished load is rendered, loaded by the real code and compared field by field with the specification's program. The repository's examples "
+         "and the script texts of its own tests are loaded with the listener's callbacks recorded; Trace_Load.tla is the oracle for their programs and "
+         "validates every recorded trace against the listener machine (corrupted traces must be rejected).",
     note="Trusted: TLC; harness/absyn.render (self-checked per case against the real parse tree); values compared by kind and value. Bounded menus.",
     technique="TLC script-builder model of the listener machine (operational = denotational) + spec-generated scripts replayed into the real loader",
     design="7/C02")
